@@ -225,6 +225,8 @@ type cmdCase struct {
 	// PreludeWrite / PreludeMkdir: after the earlier invocations (and after PreludeRemove) these files are
 	// (re)written and these directories made: what happened to the disk between two invocations of one process
 	PreludeWrite map[string][]byte
+	// SdkPlugin: the host hands an in-process plugin (name, parameters) to every invocation of the world
+	SdkPlugin map[string]interface{}
 	// Twins: command lines run by other callers of the process at the same time as the observed invocation
 	Twins        [][]string
 	PreludeMkdir []string
@@ -281,7 +283,7 @@ func (c *cmdCase) spec(seed uint64) *simrt.Spec {
 	args = append(args, c.Extra...)
 	args = append(args, c.Prog.Main)
 	sp.Args = args
-	if len(c.Prelude) > 0 || c.SdkWd != "" || len(c.Twins) > 0 {
+	if len(c.Prelude) > 0 || c.SdkWd != "" || len(c.Twins) > 0 || c.SdkPlugin != nil {
 		d := map[string]interface{}{}
 		if len(c.Prelude) > 0 {
 			d["prelude"] = c.Prelude
@@ -300,6 +302,9 @@ func (c *cmdCase) spec(seed uint64) *simrt.Spec {
 		}
 		if len(c.Twins) > 0 {
 			d["twins"] = c.Twins
+		}
+		if c.SdkPlugin != nil {
+			d["sdk_plugin"] = c.SdkPlugin
 		}
 		if len(c.PreludeMkdir) > 0 {
 			d["prelude_mkdir"] = c.PreludeMkdir
